@@ -94,7 +94,8 @@ def _get_placement(start, end, lines):
             if span_ident is None:
                 coord = coord_end - size
             else:
-                number = number or 1
+                # Count with the span of the start line, not the integer of the end line.
+                number = size
                 if coord_end > 0:
                     iterable = enumerate(lines[coord_end-1::-1])
                     for coord, line in iterable:
